@@ -23,15 +23,15 @@ const (
 // (pppoe/server.go handlePADR never looks for an existing session of that MAC), so a retransmitted PADR or a
 // client that reconnects without PADT legitimately has two live sessions.
 type pppoeSim struct {
-	h     *hist
-	m     *pppoe.SessionManager
-	live  map[uint16]string         // id -> MAC string
-	sess  map[uint16]*pppoe.Session // id -> object handed out by CreateSession
-	gone  map[uint16]bool           // ids removed so far
-	macs  []net.HardwareAddr
-	nt    bool
+	h                       *hist
+	m                       *pppoe.SessionManager
+	live                    map[uint16]string         // id -> MAC string
+	sess                    map[uint16]*pppoe.Session // id -> object handed out by CreateSession
+	gone                    map[uint16]bool           // ids removed so far
+	macs                    []net.HardwareAddr
+	nt                      bool
 	dupMAC, wrapped, zeroID bool
-	freedBy map[uint16]string
+	freedBy                 map[uint16]string
 }
 
 func (p *pppoeSim) check(t fataler, op string) bool {
@@ -112,7 +112,7 @@ func TestPropPPPoESessions(t *testing.T) {
 		counter := start
 		listed := vstat.IsListed(sigPPPoEIdxRemove) || vstat.IsListed(sigPPPoEIdxCleanup)
 		// while the index defect is listed most cases keep one session per MAC so that they reach depth
-		allowDup := !listed || rapid.IntRange(0, 2).Draw(rt, "allowSameMAC") == 0
+		allowDup := !listed || rapid.Bool().Draw(rt, "allowSameMAC")
 		mac := rapid.SampledFrom(p.macs)
 		liveIDs := func() []uint16 {
 			var ids []uint16
@@ -122,7 +122,7 @@ func TestPropPPPoESessions(t *testing.T) {
 			sort.Slice(ids, func(i, j int) bool { return ids[i] < ids[j] })
 			return ids
 		}
-		rt.Repeat(map[string]func(*rapid.T){
+		rt.Repeat(guard(&p.h.dead, map[string]func(*rapid.T){
 			"create": func(rt *rapid.T) {
 				mc := mac.Draw(rt, "mac")
 				has := false
@@ -218,12 +218,7 @@ func TestPropPPPoESessions(t *testing.T) {
 				}
 				p.check(rt, "CleanupExpired")
 			},
-			"": func(rt *rapid.T) {
-				if p.h.dead {
-					rt.Skip("known finding fired")
-				}
-			},
-		})
+		}))
 		cls := []string{"pppoe"}
 		if start == 0 || start > 65000 {
 			cls = append(cls, "pppoe:counter-near-wrap")
@@ -238,7 +233,7 @@ func TestPropPPPoESessions(t *testing.T) {
 			cls = append(cls, "pppoe:two-sessions-one-mac")
 		}
 		if p.nt {
-			cls = append(cls, "nt:reacquired-or-contended")
+			cls = append(cls, "nt:reacquired-or-contended", "nt:"+cls[0])
 		}
 		ops := p.h.ops
 		vstat.Case(p.nt, p.h.fp(), func() any { return map[string]any{"component": "pppoe", "ops": ops} }, cls...)
